@@ -55,6 +55,49 @@ func normCond(cond ssa.Value, pol bool) string {
 	return s
 }
 
+// normCondInlined: when the condition is a call of a module predicate helper whose body is a single `return <expr>`
+// (one basic block, one bool result), renders the condition with the helper's expression in place of the call, its
+// parameters replaced by the arguments. A rule written against `slices.Contains(policy.List, x)` then still recognises
+// the guard after the comparison was moved, unchanged, into a helper `policy.isListed(x)` — and does not when the
+// helper compares something else (e.g. a transformed argument).
+func normCondInlined(cond ssa.Value, pol bool) (string, bool) {
+	for {
+		u, ok := cond.(*ssa.UnOp)
+		if !ok || u.Op != token.NOT {
+			break
+		}
+		cond = u.X
+		pol = !pol
+	}
+	call, ok := cond.(*ssa.Call)
+	if !ok {
+		return "", false
+	}
+	f := call.Call.StaticCallee()
+	if f == nil || len(f.Blocks) != 1 || !inModule(fpkgPath(f)) || f.Signature.Results().Len() != 1 {
+		return "", false
+	}
+	ret, ok := f.Blocks[0].Instrs[len(f.Blocks[0].Instrs)-1].(*ssa.Return)
+	if !ok || len(ret.Results) != 1 {
+		return "", false
+	}
+	if len(call.Call.Args) != len(f.Params) {
+		return "", false
+	}
+	old := vstrSubst
+	sub := map[ssa.Value]string{}
+	for k, v := range old {
+		sub[k] = v
+	}
+	for i, p := range f.Params {
+		sub[p] = vstr(call.Call.Args[i])
+	}
+	vstrSubst = sub
+	s := normCond(ret.Results[0], pol)
+	vstrSubst = old
+	return s, true
+}
+
 // edgesInto returns the If edges that lead to block target, looking through
 // empty forwarding blocks (blocks consisting of a single Jump).
 func edgesInto(target *ssa.BasicBlock) []Edge {
@@ -443,8 +486,12 @@ func HeldEdges(fn *ssa.Function, re string) []Edge {
 		}
 		if matchEither(rx, normCond(iff.Cond, true)) {
 			out = append(out, Edge{b, 0})
+		} else if s, ok := normCondInlined(iff.Cond, true); ok && matchEither(rx, s) {
+			out = append(out, Edge{b, 0})
 		}
 		if matchEither(rx, normCond(iff.Cond, false)) {
+			out = append(out, Edge{b, 1})
+		} else if s, ok := normCondInlined(iff.Cond, false); ok && matchEither(rx, s) {
 			out = append(out, Edge{b, 1})
 		}
 	}
